@@ -39,3 +39,6 @@ import Dashu.Props.C15Link
 #print axioms Dashu.Props.C15Values.operator_eq_context_rem
 #print axioms Dashu.Props.C15Link.rbig_euclid_method_forms
 #print axioms Dashu.Props.C15Link.relaxed_euclid_method_forms
+#print axioms Dashu.Props.C15GenEuclid.gen_primitive_forms_are_model
+#print axioms Dashu.Props.C15GenEuclid.gen_assign_by_taking_is_model
+#print axioms Dashu.Props.C15GenEuclid.fromInt_spec
